@@ -342,11 +342,17 @@ static int scan_line(npd_scan_state_t *nssp)
 static bool convert_int(const char *field, int *value)
 {
     char *end;
+    long lvalue;
 
-    *value = strtol(field, &end, 0);
+    errno = 0;
+    lvalue = strtol(field, &end, 0);
     if (end == field) {
 	return false;
     }
+    if (errno == ERANGE || lvalue >= INT_MAX || lvalue <= INT_MIN) {
+	return false;
+    }
+    *value = (int)lvalue;
     while (isspace(*end))
 	++end;
     return *end == '\000';
